@@ -35,6 +35,8 @@ pub struct GenOpts {
     pub pos_and_cmd: bool,
     /// custom help/version flag names
     pub custom_help: bool,
+    /// chains of `adjacent()` commands (`cmd1 --a cmd2 --b cmd1 ..`)
+    pub adjacent_cmds: bool,
 }
 
 impl GenOpts {
@@ -63,6 +65,7 @@ impl GenOpts {
             pure_fail: false,
             pos_and_cmd: false,
             custom_help: false,
+            adjacent_cmds: false,
         }
     }
     pub fn general() -> GenOpts {
@@ -90,6 +93,7 @@ impl GenOpts {
             pure_fail: false,
             pos_and_cmd: false,
             custom_help: false,
+            adjacent_cmds: false,
         }
     }
 }
@@ -544,6 +548,31 @@ impl<'a> Pool<'a> {
         }))
     }
 
+    /// `many` over a choice of `adjacent()` commands whose own levels only have named items
+    pub fn adjacent_command_chain(&mut self) -> Spec {
+        let n = self.rng.range(1, 3);
+        let mut cmds = Vec::new();
+        for _ in 0..n {
+            let id = self.id();
+            let name = self.cmd_name();
+            let mut fields = Vec::new();
+            for _ in 0..self.rng.range(0, 3) {
+                fields.push(self.named_field());
+            }
+            let mut opts = OptSpec::plain(Spec::Seq(fields));
+            opts.descr = Some(format!("D{}-descr", id));
+            cmds.push(Spec::Cmd(Box::new(CmdSpec {
+                id,
+                names: vec![name],
+                shorts: vec![],
+                help: None,
+                adjacent: true,
+                opts,
+            })));
+        }
+        Spec::wrap(W::Many { catch: false }, self.id(), Spec::Alt(cmds))
+    }
+
     /// an adjacent group: flag/argument first, then positionals or named arguments
     pub fn adjacent_group(&mut self) -> Spec {
         let first = if self.rng.chance(2, 3) {
@@ -692,6 +721,13 @@ impl<'a> Pool<'a> {
             fields.push(Spec::Pure(self.id()));
         }
         let want_cmd = depth > 0 && self.rng.chance(1, 2);
+        if self.o.adjacent_cmds && !want_cmd && fields.len() < 10 && self.rng.chance(1, 5) {
+            // a chain of adjacent commands ends the level (no positionals next to it)
+            fields.push(self.adjacent_command_chain());
+            let mut o = OptSpec::plain(Spec::Seq(fields));
+            self.info(&mut o, id);
+            return o;
+        }
         if !want_cmd || self.o.pos_and_cmd {
             let max = if want_cmd { 1 } else { self.o.max_pos };
             let ps = self.positionals(max);
